@@ -79,7 +79,7 @@ def split_into_batches(
 
 
 def _expand_sample_size(n_samples, max_sample_size):
-    multiplicities = ceil(n_samples / max_sample_size)
+    multiplicities = -(-n_samples // max_sample_size)
     new_n_samples = (
         multiplicities * (max_sample_size,)
         if n_samples % max_sample_size == 0
